@@ -715,7 +715,7 @@ fn cmd_xadd(args: &[String]) -> i32 {
         let mix = &mixes[k % mixes.len()];
         let width = if (k / mixes.len() + k) % 2 == 0 { 4 } else { 8 };
         let woff = *r.pick(&[8u64, 16, 24, 32, 40]) + if width == 4 && r.chance(1, 2) { 4 } else { 0 };
-        jobs.push(json!({"width": width, "count": count, "engines": mix, "word_offset": woff}));
+        jobs.push(json!({"width": width, "count": count, "engines": mix, "word_offset": woff, "pair_rotation": 3 * k + (seed as usize)}));
     }
     let results = run_isolated(&jobs, 120000, xadd::run_config);
     use std::io::Write;
